@@ -311,6 +311,8 @@ def _variants():
         V("rd2134-drops-first-entry-check", replace_expr(CO, "Rd2134CoreStrategy.is_valid_extension", "patt[0] == 0 and fstrip(patt).avoids(Rd2134CoreStrategy._M_PATT) and (last_comp not in Rd2134CoreStrategy._NON_INC or len(last_comp) == 1)",
                                                           "fstrip(patt).avoids(Rd2134CoreStrategy._M_PATT) and (last_comp not in Rd2134CoreStrategy._NON_INC or len(last_comp) == 1)"), "fire", "C19-V1"),
         V("ru2143-drops-first-entry-check", replace_stmt(CO, "Ru2143CoreStrategy.is_valid_extension", "if patt[0] != 0: ...", ""), "fire", "C19-V1", "the original defect"),
+        V("skew-decomposable-misses-last-split", replace_expr("permuta/patterns/perm.py", "Perm.is_skew_decomposable", "range(1, n)", "range(1, n - 1)"), "fire", "C19-V1"),
+        V("sum-decomposable-from-0", replace_expr("permuta/patterns/perm.py", "Perm.is_sum_decomposable", "range(1, len(self))", "range(0, len(self))"), "fire", "C19-V1"),
         V("zero-plus-perm-last", replace_expr(CO, "zero_plus_perm", "perm[0] == 0", "perm[-1] == 0"), "fire", "C19-V1"),
         V("rucu-extension-on-stripped", replace_expr(CO, "RuCuCoreStrategy.is_valid_extension", "zero_plus_skewind(patt)", "zero_plus_skewind(fstrip(patt))"), "fire", "C19-V1"),
         V("fstrip-strips-last", replace_expr(CO, "fstrip", "perm[0] == 0", "perm[-1] == 0"), "fire", "C19-V1"),
@@ -397,6 +399,20 @@ def rule_v1(ctx: Ctx) -> None:
         f = mod.functions.get(name)
         if f is not None:
             ctx.run(check_skeleton, ctx, "C19-V1", f, specs, what)
+    # the decomposability tests the helpers rely on (Perm methods, reached through the class-level aliases)
+    perm_cls = ctx.repo.cls("Perm")
+    for alias, meth, specs, what in (
+        ("skew_decomposable", "is_skew_decomposable", ["return any(set(range(len(self) - i, len(self))) == set(itertools.islice(self, i)) for i in range(1, len(self)))"],
+         "skew decomposable = Exists 1 <= i < n: the first i entries are the i largest values"),
+        ("sum_decomposable", "is_sum_decomposable", ["return any(set(range(i)) == set(itertools.islice(self, i)) for i in range(1, len(self)))"],
+         "sum decomposable = Exists 1 <= i < n: the first i entries are the i smallest values"),
+    ):
+        bound = perm_cls.assigns.get(alias)
+        if bound is None or unparse(bound) != meth:
+            if ctx.repo.method("Perm", alias) is None:
+                raise AnalysisError(f"Perm.{alias} is neither a method nor an alias of {meth}")
+        f = ctx.repo.need_method("Perm", meth)
+        ctx.run(check_skeleton, ctx, "C19-V1", f, specs, what)
     for name, target in (("last_sum_component", "set(range({n} - {i}, {n}))"), ("last_skew_component", "set(range({i}))")):
         f = mod.functions.get(name)
         if f is not None:
@@ -442,7 +458,7 @@ def run(ctx: Ctx) -> None:  # noqa: F811
     ctx.run(rule_v1, ctx)
 
 
-FLOORS["C19-V1"] = 16
+FLOORS["C19-V1"] = 18
 EXPLANATION = EXPLANATION.replace("NOT decided: the shape helpers (fstrip, bstrip, last_sum_component, ...), that each patterns_needed set",
                                   "(e) every core strategy accepts an extra basis element only in the '1 (+) p' form (V1: patt[0] == 0 required on the unstripped pattern, directly or through a zero_plus_* helper) "
                                   "and the shape helpers fstrip, bstrip, zero_plus_*, last_sum_component, last_skew_component state their definitions (V1). NOT decided: that each patterns_needed set")
